@@ -1,4 +1,5 @@
 import PwVerif.Model.Hint
+import PwVerif.Model.HintGate
 import PwVerif.Model.Proto
 open PwVerif PwVerif.Hint PwVerif.Proto
 
@@ -13,6 +14,14 @@ word:
 
 ops:  cfg <0|1> <0|1> <0|1> <0|1>   (unionOldExpanded literalTypeStrict tgOnly emptyOtherStrict)
       cmp hint hint | adm hint value | conn (hint|-) (hint|-) <0|1> | recv (hint|-) (hint|-) <0|1>
+      gate <via> (hint|-) (hint|-) <senderStrict> <receiverStrict>      via ::= oc | ic | ri | ro
+ histories (state: numbered channels, links, values; reset by `case`):
+      chan <id> (hint|-) <strict>      (re)define a channel, no output
+      strict <id> <0|1>                switch its flag, no output
+      setval <id> value                `channel.value = v`        -> setval ok | rejected
+      link <via> <s> <r>               make the link              -> link ok | refused | REC | receiver-rejects
+      push <via> <s> <r> value         send a value over the link -> push ok | sender-rejects | receiver-rejects | no-link
+      links                            -> links <via>:<s>><r> ... (newest first)
 -/
 
 def parseCls : String → Option Cls
@@ -118,9 +127,18 @@ def showCmp : Option Bool → String
 def showAcc : Option Bool → String
   | none => "REC" | some true => "ok" | some false => "refused"
 
-def init : Cfg := Cfg.pinned
+def parseVia : String → Option Via
+  | "oc" => some .outConnects | "ic" => some .inpConnects | "ri" => some .recvInp | "ro" => some .recvOut
+  | _ => none
 
-def step (cfg : Cfg) (ws : List String) : Cfg × List String :=
+def showVia : Via → String
+  | .outConnects => "oc" | .inpConnects => "ic" | .recvInp => "ri" | .recvOut => "ro"
+
+def showOutcome : Outcome → String
+  | .ok => "ok" | .refused => "refused" | .diverges => "REC" | .senderRejects => "sender-rejects"
+  | .receiverRejects => "receiver-rejects" | .noLink => "no-link"
+
+def stepCfg (cfg : Cfg) (ws : List String) : Cfg × List String :=
   match ws with
   | ["cfg", a, b, c, d] =>
     match parseBit a, parseBit b, parseBit c, parseBit d with
@@ -148,6 +166,57 @@ def step (cfg : Cfg) (ws : List String) : Cfg × List String :=
       | some s => (cfg, ["recv " ++ showAcc (validReceiver cfg ⟨h, true⟩ ⟨o, s⟩)])
       | none => (cfg, ["bad-op"])
     | _ => (cfg, ["bad-op"])
+  | "gate" :: v :: ws =>
+    match parseVia v, (do let (h, ws) ← parseOptHint ws; let (o, ws) ← parseOptHint ws; pure (h, o, ws)) with
+    | some via, some (h, o, [a, b]) =>
+      match parseBit a, parseBit b with
+      | some a, some b => (cfg, ["gate " ++ showAcc (gate cfg via ⟨h, a⟩ ⟨o, b⟩)])
+      | _, _ => (cfg, ["bad-op"])
+    | _, _ => (cfg, ["bad-op"])
   | _ => (cfg, ["bad-op"])
+
+structure St where
+  cfg : Cfg
+  net : Net
+
+def init : St := ⟨Cfg.pinned, Net.init fun _ => ⟨none, true⟩⟩
+
+def step (st : St) (ws : List String) : St × List String :=
+  match ws with
+  | "chan" :: i :: ws =>
+    match i.toNat?, parseOptHint ws with
+    | some i, some (h, [b]) =>
+      match parseBit b with
+      | some b => ({ st with net := { st.net with chan := updN st.net.chan i ⟨h, b⟩ } }, [])
+      | none => (st, ["bad-op"])
+    | _, _ => (st, ["bad-op"])
+  | ["strict", i, b] =>
+    match i.toNat?, parseBit b with
+    | some i, some b => ({ st with net := st.net.setStrict i b }, [])
+    | _, _ => (st, ["bad-op"])
+  | "setval" :: i :: ws =>
+    match i.toNat?, parseVal ws with
+    | some i, some (v, []) =>
+      if typeCheckOk st.cfg (st.net.chan i) v then
+        ({ st with net := st.net.step st.cfg (.setVal i v) }, ["setval ok"])
+      else (st, ["setval rejected"])
+    | _, _ => (st, ["bad-op"])
+  | ["link", v, s, r] =>
+    match parseVia v, s.toNat?, r.toNat? with
+    | some via, some s, some r =>
+      let (n, o) := st.net.link st.cfg via s r
+      ({ st with net := n }, ["link " ++ showOutcome o])
+    | _, _, _ => (st, ["bad-op"])
+  | "push" :: v :: s :: r :: ws =>
+    match parseVia v, s.toNat?, r.toNat?, parseVal ws with
+    | some via, some s, some r, some (x, []) =>
+      let (n, o) := st.net.push st.cfg via s r x
+      ({ st with net := n }, ["push " ++ showOutcome o])
+    | _, _, _, _ => (st, ["bad-op"])
+  | ["links"] =>
+    (st, [" ".intercalate ("links" :: st.net.links.map fun l => s!"{showVia l.via}:{l.s}>{l.r}")])
+  | _ =>
+    let (c, out) := stepCfg st.cfg ws
+    ({ st with cfg := c }, out)
 
 def main : IO Unit := Proto.run init step
